@@ -929,5 +929,8 @@ func updateTime(ctx context.Context) time.Time {
 	if t, ok := writetime.FromContext(ctx); ok {
 		return t
 	}
+	if t, ok := verifNow(); ok {
+		return t
+	}
 	return time.Now()
 }
